@@ -49,6 +49,24 @@ def _clean_annotation(annotation: Optional[str]) -> Optional[str]:
     return annotation.strip()
 
 
+def quote_string_with_backslash_escapes(string_quote: str, string: str) -> str:
+    """
+    Quote a string value for dialects whose string literals treat backslash as an
+    escape character (MySQL, SparkSQL, BigQuery): backslashes, the quote character
+    and line breaks are written as backslash escapes.
+    """
+    assert isinstance(string_quote, str)
+    assert isinstance(string, str)
+    return (
+        string_quote
+        + string.replace("\\", "\\\\")
+        .replace(string_quote, "\\" + string_quote)
+        .replace("\n", "\\n")
+        .replace("\r", "\\r")
+        + string_quote
+    )
+
+
 # map from op-name to special SQL formatting code
 
 
